@@ -118,21 +118,52 @@ func checkC19(c *Ctx) {
 				if !ok || !isConst || val {
 					return
 				}
-				okF, exit := mustFollow(in, func(x ssa.Instruction) bool {
+				isCancel := func(x ssa.Instruction) bool {
 					call, ok := x.(*ssa.Call)
 					if !ok || call.Call.IsInvoke() || call.Call.StaticCallee() != nil {
 						return false
 					}
 					s := m.Sym.Of(call.Call.Value)
 					return s.Op == "path" && s.Name == m.path(tc)
-				}, func(b *ssa.BasicBlock, i int) bool {
+				}
+				// ... or a call of a function this critical section was split into that cancels on
+				// every one of its paths (unless the cancel function is nil)
+				nilSkip := func(b *ssa.BasicBlock, i int) bool {
+					l, ok := m.edgeLit(b, i)
+					return ok && l.Truth && l.S.Op == "bin" && l.S.Name == "==" && symMentions(l.S, "nil") && symMentions(l.S, m.path(tc))
+				}
+				cancels := func(x ssa.Instruction) bool {
+					// in the critical section that cleared the claim: a cancel issued after the mutex was
+					// released can hit the cancel function of a term that began in between
+					if !la.MustBefore(x)[m.implMuW()] {
+						return false
+					}
+					if isCancel(x) {
+						return true
+					}
+					call, ok := x.(*ssa.Call)
+					if !ok {
+						return false
+					}
+					g := call.Call.StaticCallee()
+					if g == nil || g == u || !containsFn(m.bodyFns(u), g) || len(g.Blocks) == 0 {
+						return false
+					}
+					first := g.Blocks[0].Instrs[0]
+					if isCancel(first) {
+						return true
+					}
+					okG, _ := mustFollow(first, isCancel, nilSkip)
+					return okG
+				}
+				okF, exit := mustFollow(in, cancels, func(b *ssa.BasicBlock, i int) bool {
 					l, ok := m.edgeLit(b, i)
 					return ok && l.Truth && l.S.Op == "bin" && l.S.Name == "==" && symMentions(l.S, "nil") && symMentions(l.S, m.path(tc))
 				})
 				if okF {
-					c.ok("R1", "demotion cancels the term context in "+shortFn(u), in, "every path after the claim clear calls %s (skip: nil); under the mutex: %v", m.path(tc), la.MustBefore(in)[m.implMuW()])
+					c.ok("R1", "demotion cancels the term context in "+shortFn(u), in, "every path after the claim clear calls %s under the same write-lock hold (skip: nil)", m.path(tc))
 				} else {
-					c.viol("R1", "demotion cancels the term context in "+shortFn(u), in, "after clearing the claim a path reaches %s without calling %s: the promotion context stays alive after the term ended", c.posOf(exit), m.path(tc))
+					c.viol("R1", "demotion cancels the term context in "+shortFn(u), in, "after clearing the claim a path reaches %s without calling %s while the election mutex is still held: the promotion context stays alive after the term ended, or - cancelled after the mutex was released - the cancel hits a term that began in between", c.posOf(exit), m.path(tc))
 				}
 			})
 		}
@@ -181,7 +212,19 @@ func checkC19(c *Ctx) {
 				}
 				s := m.Sym.Of(ci.Common().Value)
 				if s.Op == "path" && s.Name == m.path(tc) {
-					c.check(containsFn(m.ClaimClear, f) || containsFn(m.ClaimSet, f), "R2", "term cancel invoked in "+shortFn(f), in, "claim-clear unit: %v (cancelling elsewhere ends the promotion context while the instance still leads)", containsFn(m.ClaimClear, f))
+					inClear := containsFn(m.ClaimClear, f)
+					for _, u := range m.ClaimClear {
+						if containsFn(m.bodyFns(u), f) {
+							inClear = true // a function the clear unit's critical section was split into
+						}
+					}
+					inSet := containsFn(m.ClaimSet, f)
+					for _, u := range m.ClaimSet {
+						if containsFn(m.bodyFns(u), f) {
+							inSet = true // plain single-call-site callees only: not the goroutines the unit starts
+						}
+					}
+					c.check(inClear || inSet, "R2", "term cancel invoked in "+shortFn(f), in, "claim-clear unit: %v (cancelling elsewhere ends the promotion context while the instance still leads)", inClear)
 				}
 			})
 		}
